@@ -365,7 +365,15 @@ def exec_repro(case, d):
             out['faults']['F6:interloper'] = 1
         except Exception:
             pass
+    if r1.status == 'hang' or (r1.status != 'ok' and float(r1.T or 0) > 350):
+        # the configuration does not complete (the known tiering deadlock, or a wall-clock verdict) and every further
+        # run of it would cost as much again: nothing is compared
+        out['probes']['long_incomplete_run_not_compared'] = 1
+        return out
     r2, t2 = run_for_tables(sc, d)
+    if r2.status == 'hang':
+        out['probes']['long_incomplete_run_not_compared'] = 1
+        return out
     out['nevents'] += r2.nevents
     out['T'] += float(r2.T)
     keys = ('status', 'exc', 'T', 'df', 'tasks', 'events', 'env')
@@ -396,6 +404,9 @@ def exec_repro(case, d):
     for h in case['hashseeds']:
         if h not in (1, 7, 4242, 99991, 31337, 2 ** 31 - 1):
             close_helper(h)         # ad-hoc hash seeds (replay files of older runs): do not let interpreters pile up
+    if any(hs[h].get('status') == 'hang' for h in case['hashseeds']):
+        out['probes']['long_incomplete_run_not_compared'] = 1       # a wall-clock verdict in a helper: inconclusive
+        return out
     for h in case['hashseeds']:
         th = hs[h]
         out['nevents'] += th.get('nevents', 0)
@@ -477,6 +488,9 @@ def exec_pause(case, d):
                 v['msg'] = 'pauses %s: %s' % (plan, v['msg'])
                 v['plan'] = list(plan)
                 viol.append(v)
+        if r.status == 'hang':
+            out['probes']['slow_paused_run_not_compared'] = out['probes'].get('slow_paused_run_not_compared', 0) + 1
+            continue        # a wall-clock verdict, not a property of the run
         if r.status != 'ok':
             add('paused_run_fails', 'pauses %s: %s %s' % (plan, r.status, r.exc), site=tag)
             if not any(v['prop'] == 'C04' and v['clause'] == 'paused_run_never_completes' for v in viol):
